@@ -473,3 +473,13 @@ def check(facts, rep, tier, cfg):
                         "forwarder has exited its entry stays in the routing table and the flow is black-holed")
             else:
                 rep.floor("C01.R10", "hand-off sites in the server loop", 0, 1)
+    # ---- R11 every TCP tunnel runs through the stream<->socket bridge at both ends: all bridge rules are preconditions
+    if mux is not None:
+        rep.rule("C01.R11", "bridge rules (= C13.R1..R6): no lost error, half-close, credit/Finish ordering, counters, joint poll")
+        sub = type(rep)(rep.prop, rep.tier, rep.config)
+        rules_c13.check(facts, sub, tier, cfg)
+        rep.paths += sub.paths
+        for i in sub.instances:
+            rep.ok("C01.R11", "%s/%s" % (i["rule"], i["key"]), i["where"], i["detail"], nontrivial=False)
+        for v in sub.violations:
+            rep.bad("C01.R11", v["key"], v["where"], v["msg"])
